@@ -287,7 +287,7 @@ def main():
     mod = importlib.import_module('props.' + pid)
     t0 = time.time()
     os.chdir(VERIF)
-    replay_dir = os.path.join(VERIF, 'replay')
+    replay_dir = os.environ.get('VERIF_REPLAY_DIR', os.path.join(VERIF, 'replay'))
     os.makedirs(replay_dir, exist_ok=True)
 
     if a.replay:
@@ -337,14 +337,16 @@ def main():
                 continue
             only_unwind = r.get('fails') and all('unwind' in k for k in r['fails'])
             if ok:
-                path = os.path.join('replay', '%s-%s.json' % (pid, re.sub(r'[^A-Za-z0-9_.-]', '_', q.name)))
-                json.dump(rp, open(os.path.join(VERIF, path), 'w'), indent=1)
+                path = os.path.join(replay_dir, '%s-%s.json' % (pid, re.sub(r'[^A-Za-z0-9_.-]', '_', q.name)))
+                json.dump(rp, open(path, 'w'), indent=1)
+                path = os.path.relpath(path, VERIF)
                 violations.append((q.name, desc or msg, msg, path))
             elif only_unwind:
                 inconclusive.append((q.name, 'unwinding bound exceeded: ' + desc[:200]))
             else:
-                path = os.path.join('replay', '%s-%s.unconfirmed.json' % (pid, re.sub(r'[^A-Za-z0-9_.-]', '_', q.name)))
-                json.dump(rp, open(os.path.join(VERIF, path), 'w'), indent=1)
+                path = os.path.join(replay_dir, '%s-%s.unconfirmed.json' % (pid, re.sub(r'[^A-Za-z0-9_.-]', '_', q.name)))
+                json.dump(rp, open(path, 'w'), indent=1)
+                path = os.path.relpath(path, VERIF)
                 unconfirmed.append((q.name, desc or 'solver counterexample', msg, path))
         for f in (r.get('_gb'), r.get('vc')):
             if f and os.path.exists(f):
@@ -414,8 +416,9 @@ def main():
         g['n'] += 1
         g['pass'] += 1 if r['status'] == 'pass' else 0
         g['max_s'] = max(g['max_s'], round(r.get('wall', 0), 1))
-    os.makedirs(os.path.join(VERIF, 'evidence'), exist_ok=True)
-    json.dump(ev, open(os.path.join(VERIF, 'evidence', pid + '.json'), 'w'), indent=1)
+    evdir = os.environ.get('VERIF_EVIDENCE_DIR', os.path.join(VERIF, 'evidence'))
+    os.makedirs(evdir, exist_ok=True)
+    json.dump(ev, open(os.path.join(evdir, pid + '.json'), 'w'), indent=1)
     print('%s tier=%s: %d queries, %d discharged, %d inconclusive, %d unconfirmed, %d violations, %d known findings; '
           'wall %.0fs (solver %.0fs)' % (pid, a.tier, len(results), passed, len(inconclusive), len(unconfirmed),
                                          len(violations), len(seen), wall, runner.solver_time))
